@@ -328,6 +328,10 @@ func (d *Def) getMethodNameAndSetIsStatic(
 	if t.IsTargetIdentifier("self") {
 		ctx.IsDefineStatic = true
 
+		// `private` / `protected` sections apply to instance methods only
+		ctx.EndPrivate()
+		ctx.EndProtected()
+
 		t, err = p.ReadTwice()
 		if err != nil {
 			return "", err
